@@ -205,6 +205,7 @@ def pairs(ctx):
     S = Sym(prog, f)
     ret = [(b, t) for b, t in f.calls() if (t.get("callee") or "").endswith("Vec::<T, A>::retain")]
     ctx.check(len(ret) == 1, R, "Delete::exec filters with Vec::retain", "", "Delete::exec no longer filters rows with a single Vec::retain", f.loc(), fn=f.name)
+    del_only_retain(ctx)
     n = 0
     for g in prog.fns.values():
         if g.crate != "msi" or g.kind == "Closure":
@@ -375,3 +376,15 @@ def limits(ctx):
         ctx.check(len(have) == 3, R, "widths disagree (%s / %s): rows are pre-validated against all catalog tables" % (sorted(tn.values()), sorted(cn.values())), str(sorted(have)),
                   "catalog widths for table names %s and column names %s disagree and create_table does not pre-validate against all catalog tables: a name between the "
                   "narrowest and the widest width is refused only after part of the catalog was written" % (tn, cn), f.loc(), fn=f.name, key=R + "|prevalidate")
+
+
+def del_only_retain(ctx, rule="DEL-RETAIN"):
+    """rows leave a table in Delete::exec only through the order-preserving, string-releasing retain pass"""
+    prog = ctx.prog
+    ctx.rule(rule, "in Delete::exec the row vector read from the table is changed only by Vec::retain (which preserves order and whose closure releases the dropped rows' strings): "
+                   "no clear / truncate / drain / remove / swap_remove / pop / sort / reverse on it")
+    f = prog.fn(Q + "Delete::exec")
+    bad = [short(cname(prog, t)) for b, t in f.calls() if re.search(r"Vec::<T, A>::(clear|truncate|drain|remove|swap_remove|pop|split_off|dedup\w*|insert|push|append)$|<impl \[T\]>::(sort\w*|reverse|swap|rotate\w*)$", t.get("callee") or "")
+           and "ValueRef" in (t.get("written") or "")]
+    ctx.check(not bad, rule, "Delete::exec changes the rows only through retain", "", "Delete::exec also changes the row vector with %s: rows leave the table without their strings being released, or "
+              "the remaining rows lose their key order" % bad, f.loc(), fn=f.name, key=rule)
